@@ -534,10 +534,14 @@ class MediaSegmentInfo(SegmentInfoBase):
         options = mp4.Options(lazy_load=False)
         if current_media_file.representation.encrypted:
             options.iv_size = current_media_file.representation.iv_size
-        with current_media_file.open_file(start=frag.pos, buffer_size=16384) as reader:
-            src = BufferedReader(
-                reader, offset=frag.pos, size=frag.size, buffersize=16384)
-            atom = mp4.Mp4Atom.load(src, options=options, use_wrapper=True)
+        try:
+            with current_media_file.open_file(start=frag.pos, buffer_size=16384) as reader:
+                src = BufferedReader(
+                    reader, offset=frag.pos, size=frag.size, buffersize=16384)
+                atom = mp4.Mp4Atom.load(src, options=options, use_wrapper=True)
+        except Exception as err:  # pylint: disable=broad-except
+            logging.warning('Failed to parse segment %s: %s', segnum, err)
+            return flask.make_response('Failed to parse MP4 segment', 400)
         back_url = flask.url_for(
             'list-media-segments', spk=current_stream.pk, mfid=current_media_file.pk)
         full_title: str = f'Segment {segnum} in fille "{current_media_file.blob.filename}"'
@@ -621,7 +625,11 @@ class InspectMediaFile(SegmentInfoBase):
         print('blob_info', dir(blob_info))
         options = mp4.Options(lazy_load=False)
         src = BufferedReader(blob_info)
-        atom = mp4.Mp4Atom.load(src, options=options, use_wrapper=True)
+        try:
+            atom = mp4.Mp4Atom.load(src, options=options, use_wrapper=True)
+        except Exception as err:  # pylint: disable=broad-except
+            logging.warning('Failed to parse %s: %s', blob_info.filename, err)
+            return flask.make_response('Failed to parse MP4 file', 400)
         back_url = flask.url_for('inspect-media')
         full_title: str = f"Contents of {blob_info.filename}"
         short_title: str = blob_info.filename
